@@ -13,6 +13,7 @@ the package, recomputed with ast and compared with the reviewed list."""
 import ast
 import json
 import os
+import re
 import shutil
 import subprocess
 import sys
@@ -142,7 +143,7 @@ def gen_seq(rng, sid):
             text = f'${fname}[*][ @n = count_headers() print("$.csvpath.headers") @h = count_headers_in_line() ]'
         else:
             text = gen.gen_prog(rng, fname, control=True, modes=True)["text"]
-        seq.append({"text": text, "rows": rows, "fname": fname, "how": rng.choice(["paths", "paths", "direct", "newpaths"])})
+        seq.append({"text": text, "rows": rows, "fname": fname, "how": rng.choice(["paths", "paths", "direct", "newpaths", "group"])})
     return seq
 
 
@@ -204,11 +205,15 @@ def run(ctx):
         for phase in ("first", "second"):
             for k, (j, got, twin) in enumerate(zip(s, r.get(phase) or [], r.get("twins") or [])):
                 jobs_run += 1
+                if j["how"] == "group" and "lines" in got and "lines" in twin:
+                    # a group's lines are read back from the run's data.csv (text), and its printouts carry the group identity in the "[...]" prefix
+                    twin = dict(twin, lines=[[str(x) for x in l] for l in twin["lines"]], printouts=[re.sub(r"^\[[^\]]*\] ", "", x) for x in twin["printouts"]])
+                    got = dict(got, lines=[[str(x) for x in l] for l in got["lines"]], printouts=[re.sub(r"^\[[^\]]*\] ", "", x) for x in got["printouts"]])
                 if got != twin:
                     diff = [key for key in sorted(set(got) | set(twin)) if got.get(key) != twin.get(key)]
                     earlier = s[:k] if phase == "first" else s
                     rec = fails
-                    if j["how"] != "direct" and any(x["fname"] == j["fname"] and x["rows"] != j["rows"] and x["how"] != "direct" for x in earlier):
+                    if j["how"] in ("paths", "newpaths") and any(x["fname"] == j["fname"] and x["rows"] != j["rows"] and x["how"] in ("paths", "newpaths") for x in earlier):
                         rec = stale     # a CsvPaths-created csvpath on a path whose earlier content a CsvPaths-created csvpath has cached
                     rec.append({"kind": f"job {k} of a sequence ({'same process, cold cache' if phase == 'first' else 'later process, cache populated'}) differs from the same job run first in a fresh process: {diff}",
                                   "sequence": [{"csvpath": x["text"], "file": x["fname"], "created": x["how"]} for x in s], "job": k, "rows": j["rows"],
